@@ -142,6 +142,29 @@ func c05ExecAPI(r *vf.Run, k c05Case) []finding {
 	return out
 }
 
+// domainClass names what is unusual about a domain (finding keys).
+func domainClass(d string) string {
+	switch {
+	case strings.ContainsAny(d, " >"):
+		return "blank-or-angle"
+	case strings.HasPrefix(d, "["):
+		return "address-literal"
+	case strings.Contains(d, "%"):
+		return "percent"
+	case strings.Contains(d, ".."):
+		return "empty-label"
+	case strings.HasSuffix(d, "."):
+		return "trailing-dot"
+	case strings.HasPrefix(d, "-") || strings.Contains(d, "-."):
+		return "hyphen-at-label-edge"
+	case len(d) > 200:
+		return "long"
+	case strings.IndexFunc(d, func(r rune) bool { return r > 127 }) >= 0:
+		return "utf8"
+	}
+	return "plain"
+}
+
 func c05Exec(r *vf.Run, k c05Case) []finding {
 	if k.Kind == "smtpapi" {
 		return c05ExecAPI(r, k)
@@ -232,6 +255,10 @@ func c05Exec(r *vf.Run, k c05Case) []finding {
 	cls := k.Kind
 	if k.Kind == "addr" {
 		cls = fmt.Sprintf("addr/%s/quoted=%v/local=%s", c05Setters[k.Setter], k.Quoted, localClass(k.Local))
+		if k.Domain != "example.com" && k.Domain != "[192.0.2.1]" {
+			// the domain sweep uses plain local parts: what goes wrong there is a matter of the domain alone
+			cls = "addr/domain=" + domainClass(k.Domain)
+		}
 	}
 	for _, il := range sess.Illegal {
 		key := il.Key
@@ -294,7 +321,7 @@ func init() {
 	vf.Register(&vf.Check{
 		ID: "C05", Title: "envelope addresses and command lines cannot be smuggled",
 		Run: func(r *vf.Run) {
-			r.SetRule("local parts: ALL strings of length 1..L over {a . SP < > @ , ; : \\ \" ü ( +} offered bare and as quoted-string × domain {example.com, [192.0.2.1]} × setter {From, EnvelopeFrom, To, Cc, Bcc, FromFormat, AddToFormat, AddBccFormat} × {no DSN options, DSN return/notify parameters on the command lines}; HELO names {plain, blank inside, CRLF + command, TAB, UTF-8, 300 chars, empty label}; user names/passwords over a hostile alphabet for PLAIN/LOGIN/CRAM-MD5/XOAUTH2/SCRAM; all 16 DSN option combinations; smtp.Client used directly: all call sequences of length 1..3 over {Hello, Mail, Rcpt, Verify with a hostile argument, Noop, Reset, Extension, Quit, Mail/Rcpt with a good argument} × 9 hostile arguments; every command line the client writes is judged by the strict RFC 5321 parser of the reference server and the parsed path must denote the mailbox the caller set (own RFC 5322 dot-atom/quoted-string reading of the input); distinct by case tuple")
+			r.SetRule("local parts: ALL strings of length 1..L over {a . SP < > @ , ; : \\ \" ü ( +} offered bare and as quoted-string × domain {example.com, [192.0.2.1]} (thorough: length 4 for From and To) × setter {From, EnvelopeFrom, To, Cc, Bcc, FromFormat, AddToFormat, AddBccFormat} × {no DSN options, DSN return/notify parameters on the command lines}; 16 domain forms (UTF-8 and punycode labels, trailing dot, empty label, IPv4/IPv6 literals incl. an invalid one, leading/trailing hyphen, '%', 255 octets, '>' and a smuggled parameter) × 3 local parts × all setters; HELO names {plain, blank inside, CRLF + command, TAB, UTF-8, 300 chars, empty label}; user names/passwords over a hostile alphabet for PLAIN/LOGIN/CRAM-MD5/XOAUTH2/SCRAM; all 16 DSN option combinations; smtp.Client used directly: all call sequences of length 1..3 over {Hello, Mail, Rcpt, Verify with a hostile argument, Noop, Reset, Extension, Quit, Mail/Rcpt with a good argument} × 9 hostile arguments; every command line the client writes is judged by the strict RFC 5321 parser of the reference server and the parsed path must denote the mailbox the caller set (own RFC 5322 dot-atom/quoted-string reading of the input); distinct by case tuple")
 			r.Assume("a bare local part that is not an RFC 5322 dot-atom has no defined mailbox: only the line discipline is judged for it", "SMTPUTF8 is advertised so that UTF-8 local parts are legal on the wire")
 			L := 3
 			var cases []c05Case
@@ -320,6 +347,33 @@ func init() {
 							// the same address with DSN parameters on the MAIL and RCPT lines
 							cases = append(cases, c05Case{Kind: "addr", Local: l, Quoted: q, Domain: d, Setter: s, DSN: 7})
 						}
+					}
+				}
+			}
+			// thorough: one symbol more for the two most used setters
+			if r.Thorough {
+				var l4 []string
+				for _, l := range locals {
+					if len([]rune(l)) == 3 {
+						for _, a := range c05Alphabet {
+							l4 = append(l4, l+a)
+						}
+					}
+				}
+				for _, l := range l4 {
+					for _, q := range []bool{false, true} {
+						for _, s := range []int{0, 2} {
+							cases = append(cases, c05Case{Kind: "addr", Local: l, Quoted: q, Domain: "example.com", Setter: s}, c05Case{Kind: "addr", Local: l, Quoted: q, Domain: "example.com", Setter: s, DSN: 7})
+						}
+					}
+				}
+			}
+			// the domain part: UTF-8 and punycode labels, trailing dot, empty label, address literals, hyphens, '%', 255 octets
+			for _, d := range []string{"exämple.com", "xn--exmple-cua.com", "example.com.", "a..b", "[IPv6:::1]", "[IPv6:2001:db8::1]", "[192.0.2.999]", "-bad-.example", "ex%ample.com", "ex%sample.com",
+				repeatTo("label.", 250) + "com", "localhost", "EXAMPLE.com", "example.com>", "example.com BODY=8BITMIME", "日本.example"} {
+				for _, l := range []string{"a", "a.b", "ü"} {
+					for s := range c05Setters {
+						cases = append(cases, c05Case{Kind: "addr", Local: l, Domain: d, Setter: s}, c05Case{Kind: "addr", Local: l, Domain: d, Setter: s, DSN: 7})
 					}
 				}
 			}
